@@ -438,8 +438,25 @@ bool Sandbox::rename_path(const std::string& from, const std::string& to)
 {
 	mkdirs_for(to);
 	struct stat st;
+	// the file keeps its identity (inode, size, stamp): every content version known under the old name (e.g. the original of a
+	// silently damaged file) is also a version under the new name
+	std::vector<std::shared_ptr<Bytes>> carried;
+	int64_t cs = 0, cns = 0;
+	if (lstat(abs(from).c_str(), &st) == 0 && S_ISREG(st.st_mode)) {
+		std::string ftop, fsub;
+		split_rel(from, ftop, fsub);
+		std::string fdn = disk_name_of_top(cfg, ftop);
+		cs = st.st_mtim.tv_sec; cns = st.st_mtim.tv_nsec;
+		if (!fdn.empty()) { const auto* v = versions.all(fdn, fsub, (uint64_t)st.st_size, cs, cns); if (v) carried = *v; }
+	}
 	if (lstat(abs(to).c_str(), &st) == 0) rm_rf(abs(to));
 	if (rename(abs(from).c_str(), abs(to).c_str()) != 0) return false;
+	{
+		std::string ttop, tsub;
+		split_rel(to, ttop, tsub);
+		std::string tdn = disk_name_of_top(cfg, ttop);
+		if (!tdn.empty()) for (auto& b : carried) versions.put(tdn, tsub, *b, cs, cns);
+	}
 	// register the version under its new name
 	if (lstat(abs(to).c_str(), &st) == 0 && S_ISREG(st.st_mode)) {
 		Bytes b;
